@@ -324,6 +324,12 @@ export function genRewrite(rng, params) {
 let counter = 0;
 export function gen(rng, params, mode) {
   if (mode === "prog-rewrite") return genRewrite(rng, params);
+  if (mode === "prog-describe") {
+    const p = genProg(rng);
+    p[2] = [p[2][0]]; // one export
+    const vals = genValues(rng, p, Number(params[0] || 12));
+    return [A("describe"), A(String(counter++)), p, [["entry.ts", tsOfProg(p)]], vals.map(encVal)];
+  }
   const p = genProg(rng);
   const nvals = Number(params[0] || 12);
   const vals = genValues(rng, p, nvals);
@@ -360,7 +366,29 @@ export function makeRunner(rt_, mode, build) {
     }
     return { reply: out, fail, h256, h32 };
   }
-  return async function run(req, compiled) {
+  return async function run(req, compiled, compiled2) {
+    if (head(req) === "describe") {
+      // stage 1 (compiled2 == null): print describe() of the single export
+      // stage 2: evaluate generation 1 and generation 2 on the values
+      const name = req[2][2][0][0];
+      if (head(compiled) !== "js") return [[A(head(compiled))], [A("oracle"), A(head(compiled) === "diags" ? "ok" : "fail"), ...(head(compiled) === "diags" ? [] : [A("c04." + head(compiled))])]];
+      let parsers;
+      try { parsers = (await loadEmitted(build, compiled[1])).buildParsers({}); } catch (e) { return [[A("load-error")], [A("oracle"), A("fail"), A("c04.load")]]; }
+      let text;
+      try { text = parsers[name].describe(); } catch (e) { return [[A("describe-throws"), String(e && e.message).slice(0, 100)], [A("oracle"), A("fail"), A("c15.throws")]]; }
+      if (compiled2 == null) return [[A("described"), text], [A("oracle"), A("ok")]];
+      const fail = [];
+      const names = [...text.matchAll(/^type ([A-Za-z0-9_$]+) =/gm)].map((m) => m[1]);
+      if (new Set(names).size !== names.length) fail.push(A("c15.once"));
+      if (head(compiled2) !== "js") { fail.push(A("c15.compile")); return [[A("described"), text], [A("oracle"), A("fail"), ...fail]]; }
+      let p2;
+      try { p2 = (await loadEmitted(build, compiled2[1])).buildParsers({}); } catch (e) { return [[A("described"), text], [A("oracle"), A("fail"), A("c15.load")]]; }
+      const a = parsers[name], b = p2[name];
+      const vals = req[4].map(decVal);
+      for (const v of vals) { let x, y; try { x = a.validate(v); y = b.validate(v); } catch (e) { fail.push(A("c03.throw")); break; } if (x !== y) { fail.push(A("c15.validate")); break; } }
+      try { if (a.hash256() !== b.hash256()) fail.push(A("c15.hash256")); } catch (e) { fail.push(A("c13.hash-throws")); }
+      return [[A("described"), text], fail.length ? [A("oracle"), A("fail"), ...fail] : [A("oracle"), A("ok")]];
+    }
     if (head(req) === "rewrite") {
       // compiled = (pair r1 r2)
       const a = await evalOne(req[2][2], req[4], compiled[1]);
